@@ -757,6 +757,34 @@ pub async fn run_op2(ctx: &Ctx, op: AOp, info: &Rc<TaskInfo>, handle: Handle) {
                 let _ = l.remove_filter(aldrin_core::BusListenerFilter::object(aldrin_core::ObjectUuid(uuid::Uuid::from_u128(77))));
             }
             let scope = if op.c % 2 == 0 { aldrin_core::BusListenerScope::All } else { aldrin_core::BusListenerScope::New };
+            // A sibling listener of the same connection with an overlapping filter, started for
+            // current entities only and left started: the new events the connection receives on
+            // behalf of `l` are none of its business.
+            let mut sibling = None;
+            if (op.b >> 1) % 2 == 1 {
+                let Ok(mut l0) = blocked(info, "Handle::create_bus_listener", true, handle.create_bus_listener()).await else { return };
+                if l0.add_filter(aldrin_core::BusListenerFilter::object(mine)).is_err() {
+                    return;
+                }
+                if blocked(info, "BusListener::start", true, l0.start(aldrin_core::BusListenerScope::Current)).await.is_err() {
+                    return;
+                }
+                let mut got0 = Vec::new();
+                while let Some(ev) = blocked(info, "BusListener::next_event", true, l0.next_event()).await {
+                    got0.push(ev);
+                }
+                if blocked(info, "Handle::sync_broker", true, handle.sync_broker()).await.is_err() {
+                    return;
+                }
+                if !got0.is_empty() {
+                    ctx.log.borrow_mut().violate(
+                        "listener.round-mismatch",
+                        &[crate::model::Prop::C10, crate::model::Prop::C06],
+                        format!("client{}: sibling listener (scope Current, nothing exists yet) received {got0:?}", ctx.client),
+                    );
+                }
+                sibling = Some(l0);
+            }
             if blocked(info, "BusListener::start", true, l.start(scope)).await.is_err() {
                 return;
             }
@@ -804,6 +832,31 @@ pub async fn run_op2(ctx: &Ctx, op: AOp, info: &Rc<TaskInfo>, handle: Handle) {
                     &[crate::model::Prop::C10, crate::model::Prop::C06],
                     format!("client{}: listener with filter {filt:?} scope {scope:?} received {got:?}, expected {want:?}", ctx.client),
                 );
+            }
+            if let Some(mut l0) = sibling {
+                // Restarted for current entities: exactly what exists now, nothing stale.
+                if blocked(info, "BusListener::stop", true, l0.stop()).await.is_err() {
+                    return;
+                }
+                if blocked(info, "BusListener::start", true, l0.start(aldrin_core::BusListenerScope::Current)).await.is_err() {
+                    return;
+                }
+                let mut got0 = Vec::new();
+                while let Some(ev) = blocked(info, "BusListener::next_event", true, l0.next_event()).await {
+                    got0.push(ev);
+                }
+                if blocked(info, "Handle::sync_broker", true, handle.sync_broker()).await.is_err() {
+                    return;
+                }
+                let want0 = if destroy { vec![] } else { vec![aldrin_core::BusEvent::ObjectCreated(id1)] };
+                ctx.probe("listener-round-sibling-checked");
+                if got0 != want0 {
+                    ctx.log.borrow_mut().violate(
+                        "listener.round-mismatch",
+                        &[crate::model::Prop::C10, crate::model::Prop::C06],
+                        format!("client{}: sibling listener restarted with scope Current received {got0:?}, expected {want0:?}", ctx.client),
+                    );
+                }
             }
             drop(svc);
             drop(o2);
